@@ -5,6 +5,8 @@ from univers.version_constraint import VersionConstraint, contains_version
 
 MODULES = ["Univers.Props.C04", "Univers.Props.Schemes", "Univers.Text.EndToEndThm", "Univers.Text.EndToEndGem"]
 LEVEL = "proof"
+# function-level tie (translator + agreement theorem): see runner step 3a
+TIE_THEOREMS = {"Univers.Vers.GenContainsThm": ["Univers.Gen.LayerB.contains_version_eq"]}
 RULE = ("bounded-exhaustive: every comparator sequence over the six versioned comparators up to length L on "
         "version-sorted distinct versions x every probe position (at, below, above and between every constraint "
         "version), evaluated on real versions of every scheme (ranked pools built with the real operators) and on the "
@@ -19,7 +21,7 @@ ASSUMPTIONS = [
 
 
 def _L(ctx):
-    return 6 if ctx.thorough else 4
+    return 6 if ctx.thorough else (5 if ctx.deepen else 4)
 
 
 def correspondence(ctx):
@@ -184,7 +186,7 @@ def _long_and_routes(ctx):
     obtained by other routes than the constructor: by inverting the range of the inverted constraints, by printing
     and parsing"""
     from univers.version_range import VersionRange, RANGE_CLASS_BY_SCHEMES
-    per = 60 if ctx.thorough else 10
+    per = 60 if ctx.thorough else (40 if ctx.deepen else 10)
     for name in S.ALL:
         rng = ctx.rng("c04-long", name)
         bench = B.Bench(name, rng, size=34, need_hash=False, respell=0.5)
@@ -197,6 +199,9 @@ def _long_and_routes(ctx):
         for i in range(per):
             n = rng.randint(min(10, nmax), nmax) if i % 3 else rng.randint(1, 4)
             jobs.append(B.sorted_cons(_wf_pattern(rng, n)))
+        jobs.append(B.sorted_cons(["eq"] * nmax))
+        jobs.append(B.sorted_cons(["ne"] * nmax))
+        jobs.append(B.sorted_cons(["eq"] * min(10, nmax)))
         lines, idx = [], {}
         for j, cons in enumerate(jobs):
             for x in range(1, 2 * len(cons) + 2):
@@ -234,7 +239,7 @@ def _long_and_routes(ctx):
                 model, spec, wf = answers[idx[(j, x)]].split(" ")
                 if wf != "true":
                     continue
-                probes = [m[x]] + ([bench.alt(m[x], rng)] if x % 2 == 0 else [])
+                probes = [m[x]] + ([e for e in bench.spellings(m[x]) if e[1] is not m[x][1]][:3] if x % 2 == 0 else [])
                 for xt, xv in probes:
                     for rname, fn in routes:
                         impl = B.res_bool(lambda: fn(xv))
